@@ -546,6 +546,12 @@ func writeAndRunReplay(dir string, spec *Spec, entry string, f *Finding, params 
 		count = 150
 	}
 	ok, out := runReplay(dir, spec, entry, f, params, false, count)
+	if !ok && count == 1 && f.Outcome != OUnwind {
+		// The engine fixes what the harness asked it not to explore (the iteration order of Go
+		// maps under vMapOrder(false), the order inside sync.Pool); natively those stay Go's
+		// choice, so a counterexample that depends on them may need several runs to show.
+		ok, out = runReplay(dir, spec, entry, f, params, false, 60)
+	}
 	return ok, out, dir
 }
 
